@@ -505,7 +505,22 @@ def analyse(hist, deep=True):
     sh = run_shared(hist)
     pu = run_pure(hist)
     problems = []
+    sh["both_raise"] = 0
     for ev in sh["events"]:
+        if ev["kind"] == "raises":
+            # a call that raises is not a purity violation by itself: the same call on FRESH objects (pure run: freshly built
+            # operators / probes / sequence, fresh copy of the state value) must behave the same.  Same exception type in both
+            # runs -> 'both-raise' (counted in the evidence); raising in one run only, or different exception types, is
+            # reported by the shared-vs-fresh comparison (c) below.
+            k = ev["step"]
+            a = sh["env"][k]
+            b = pu["store"][k] if k < n0 else pu["results"][k]
+            same = isinstance(a, Raised) and ((isinstance(b, Raised) and b.kind == a.kind) or b == ("raised", a.kind))
+            if same:
+                sh["both_raise"] += 1
+            elif k < n0:
+                problems.append({"sig": {"site": "construct", "why": "raises-only-in-one-run"}, "step": k, "what": ev["what"], "kind": "raises", "obj": None})
+            continue
         sig = classify(hist, ev)
         if ev["kind"] == "mutation":
             what = "call %d (%s) changed pre-existing object #%d (%s) at %s" % (ev["step"], describe(hist, ev["step"]), ev["obj"], ev["type"], ev["path"])
@@ -549,6 +564,23 @@ def analyse(hist, deep=True):
     return problems, sh, pu
 
 
+def equal_up_to_broadcast(full, cut):
+    """simulate() sizes the initial state from the shapes of ALL operators of the sequence: a value recorded by the cut
+    sequence equals the one of the full sequence up to broadcasting (cut broadcastable to the shape of full)"""
+    if isinstance(full, (list, tuple)) and isinstance(cut, (list, tuple)):
+        return type(full) == type(cut) and len(full) == len(cut) and all(equal_up_to_broadcast(x, y) for x, y in zip(full, cut))
+    if isinstance(full, (list, tuple)) or isinstance(cut, (list, tuple)):
+        return False
+    fa, ca = np.asarray(full), np.asarray(cut)
+    if fa.dtype == object or ca.dtype == object:
+        return canon(full) == canon(cut)
+    try:
+        cb = np.broadcast_to(ca, fa.shape)
+    except ValueError:
+        return False
+    return fa.dtype == ca.dtype and np.ascontiguousarray(fa).tobytes() == np.ascontiguousarray(cb).tobytes()
+
+
 def prefix_check(hist, pu):
     import epgpy as epg
     out = []
@@ -585,7 +617,7 @@ def prefix_check(hist, pu):
             multi = isinstance(c.get("probe"), list) and len(c["probe"]) > 1
             a = [v[0] for v in full] if multi else full[0]
             b = [v[0] for v in cut] if multi else cut[0]
-            if canon(a) != canon(b):
+            if not equal_up_to_broadcast(a, b):
                 out.append({"sig": {"site": "simulate", "why": "recorded-value-changed-by-later-operators"}, "step": n0 + ci, "kind": "snapshot",
                             "what": "call %d: the first recorded value differs from the value recorded by the sequence cut after the probe" % (n0 + ci)})
         except Exception as e:
@@ -1425,6 +1457,7 @@ def run(ctx):
     hists = [gen_synth(rng) for _ in range(nsyn)] + [gen_real(rng) for _ in range(nreal)]
     terms, kept = [], []
     kinds, dos, nclean = {}, {}, 0
+    nraise = nskip = 0
     for h in hists:
         kinds[h["kind"]] = kinds.get(h["kind"], 0) + 1
         for c in h["calls"]:
@@ -1437,7 +1470,10 @@ def run(ctx):
             report_problem(ctx, "", h, p, seen)
         if not probs:
             nclean += 1
-        if h["kind"] == "synth" and not any(p["kind"] == "raises" for p in probs):
+        nraise += sh.get("both_raise", 0)
+        if h["kind"] == "synth" and any(e["kind"] == "raises" for e in sh["events"]):
+            nskip += 1
+        if h["kind"] == "synth" and not any(e["kind"] == "raises" for e in sh["events"]):
             try:
                 terms.append(synth_term(h, sh)); kept.append((h, bool(probs)))
             except Exception as e:
@@ -1464,6 +1500,8 @@ def run(ctx):
     ctx.cov["history_kinds"] = kinds
     ctx.cov["call_kinds"] = dos
     ctx.cov["histories_without_any_finding"] = nclean
+    ctx.cov["calls_raising_with_reused_and_with_fresh_objects_alike"] = nraise       # 'both-raise': no C09 violation
+    ctx.cov["synthetic_histories_not_compared_with_the_model_because_a_call_raised"] = nskip
     ctx.cov["model_histories_ok"] = "%d/%d" % (nmodel_ok, len(terms))
     ctx.cov["hash_seeds"] = seeds
     ctx.cov["hash_seed_mismatches"] = nhash
